@@ -16,6 +16,7 @@ PROPS_V = "Props/C10.v"
 SOURCE_GUARDS = [
     ("esr/fitting/test_all.py", "optimise_fun"),
     ("esr/fitting/test_all.py", "chi2_fcn"),
+    ("esr/fitting/test_all.py", "main"),
 ]
 
 TRANSLATORS = []
